@@ -9,7 +9,6 @@ import (
 	"fmt"
 	"sort"
 	"strconv"
-	"strings"
 	"testing"
 
 	"Havoc/pkg/agent"
@@ -145,22 +144,21 @@ func taskInfo(op OpA, req uint32, demonID string) (int, map[string]interface{}) 
 	return cmd, info
 }
 
-// uploadUser is the model entry of the fs-upload command: [3][file name][file id].
+// uploadUser is the model entry of the fs-upload command.  CommandFS / Upload in
+// Command.c reads: GetInt32 sub-command (3), GetWString file name, GetInt32 mem-file id.
+// How the name is terminated is C02's business; here it only has to be the same name.
 func uploadUser(name string, req uint32, opIdx int) *entry {
-	fn := append(demonref.UTF16LE(name), 0, 0)
-	if !strings.HasSuffix(name, "\x00") {
-		// the operator-side encoder terminates the name once more (common.EncodeUTF16)
-		fn = append(fn, 0, 0)
-	}
-	want := binary.LittleEndian.AppendUint32(nil, 3)
-	want = binary.LittleEndian.AppendUint32(want, uint32(len(fn)))
-	want = append(want, fn...)
-	e := &entry{kind: eUser, cmd: agent.COMMAND_FS, req: req, op: opIdx, files: 1, pre: make([]byte, len(want)+4), pure: 4 + len(demonref.UTF16LE(name))}
+	nameLen := len(demonref.UTF16LE(name))
+	e := &entry{kind: eUser, cmd: agent.COMMAND_FS, req: req, op: opIdx, files: 1, pre: make([]byte, 4+4+nameLen+8+4), pure: 4 + nameLen}
 	e.idsFrom = func(body []byte) ([]uint32, bool) {
-		if len(body) != len(want)+4 || string(body[:len(want)]) != string(want) {
+		d := &demonref.Dec{B: body}
+		sub := d.Int32()
+		fn := d.Bytes()
+		id := d.Int32()
+		if d.Err || d.Len() != 0 || sub != 3 || demonref.WCString(fn) != name {
 			return nil, false
 		}
-		return []uint32{binary.LittleEndian.Uint32(body[len(want):])}, true
+		return []uint32{id}, true
 	}
 	return e
 }
